@@ -1,5 +1,6 @@
 (* Util.v — byte strings, fixed-width wrap helpers.  Models only, no proofs. *)
 From Coq Require Import NArith ZArith List Bool.
+From Srtp.Crypto Require Export CTR.
 Import ListNotations.
 Local Open Scope Z_scope.
 
@@ -39,26 +40,12 @@ Fixpoint splice {A} (off : nat) (v l : list A) : list A :=
   end.
 Definition zeros (n : nat) : bytes := repeat 0%N n.
 
-(* ---- byte-level encodings ---- *)
-Fixpoint be_bytes (n : nat) (x : N) : bytes :=
-  match n with
-  | O => []
-  | S n' => (N.shiftr x (8 * N.of_nat n') mod 256)%N :: be_bytes n' x
-  end.
+(* ---- byte-level encodings (be_bytes, xor_bytes come from Crypto.CTR) ---- *)
 Fixpoint be_val (l : bytes) : N :=
   match l with [] => 0%N | b :: r => (b * 256 ^ N.of_nat (length r) + be_val r)%N end.
 Definition be16 (l : bytes) (off : nat) : Z := Z.of_N (be_val (slice off 2 l)).
 Definition be32 (l : bytes) (off : nat) : Z := Z.of_N (be_val (slice off 4 l)).
 Definition nthb (l : bytes) (i : nat) : N := nth i l 0%N.
-
-Fixpoint xor_bytes (a k : bytes) : bytes :=
-  match a with
-  | [] => []
-  | x :: xs => match k with
-               | [] => x :: xs
-               | y :: ys => N.lxor x y :: xor_bytes xs ys
-               end
-  end.
 
 Fixpoint beqb (a b : bytes) : bool :=
   match a, b with
